@@ -15,6 +15,7 @@ Falsifier (`search`): per-bin exact integral, conservation of the filter integra
 flat-spectrum identity, evaluated on the real `rebin` output with exact sums (Fractions), independent of
 the Lean model.
 """
+import bisect
 import copy
 import gzip
 import math
@@ -46,7 +47,7 @@ REQUIRED_BRANCHES = ['filter_increasing_nu', 'filter_decreasing_nu', 'sed_increa
                      'grid_unit_Hz', 'grid_unit_GHz', 'grid_unit_THz', 'filter_nu_unit_Hz', 'filter_nu_unit_GHz',
                      'filter_nu_unit_THz', 'file_wav_increasing', 'file_wav_decreasing',
                      'file_asymmetric', 'response_dtype_f8', 'response_dtype_f4', 'response_dtype_i8', 'response_dtype_i4', 'low_frequency_filter',
-                     'integer_response_low_frequency', 'package_cube_error_unit_differs', 'package_files_error_unit_differs', 'package_cube_many_models', 'package_overwrite_stale', 'filter_construct_kw', 'filter_construct_positional',
+                     'integer_response_low_frequency', 'package_cube_error_unit_differs', 'package_files_error_unit_differs', 'leak_tail_filter', 'bin_far_below_sum', 'package_cube_many_models', 'package_overwrite_stale', 'filter_construct_kw', 'filter_construct_positional',
                      'filter_construct_attrs', 'filter_via_copy', 'filter_via_deepcopy', 'filter_via_pickle', 'shared_arrays', 'shared_arrays_f8', 'shared_arrays_readonly', 'shared_response_readonly', 'integ_generic', 'integ_swapped', 'integ_equal_inside', 'integ_equal_knot', 'integ_equal_first_end',
                      'integ_equal_last_end', 'integ_table_ends', 'integ_table_ends_swapped', 'integ_both_knots',
                      'integ_end_to_inside', 'integ_inside_to_end', 'integ_knot_to_inside', 'integ_decreasing_storage',
@@ -55,7 +56,10 @@ REQUIRED_BRANCHES = ['filter_increasing_nu', 'filter_decreasing_nu', 'sed_increa
                      'cube_from_wav_only',
                      'notch_filter', 'rebinned_interior_zero', 'package_cube_interior_zero', 'package_files_interior_zero',
                      'hist_normalize', 'hist_assign_response', 'hist_assign_both', 'hist_grid']
-ASSUMPTIONS = ['IEEE rounding is not modelled: responses compared within 1e-9 of sum|R_i|, fluxes within 1e-9 of '
+ASSUMPTIONS = ['every R_i is also compared on its own scale: |impl - model| <= 1e-9 |R_i| + 1e-13 w_i ymax_i + 1e-15 nu_i ymax_i (w_i the '
+               'clipped bin width, ymax_i the largest response among the nodes in / bracketing the bin), so that bins in a leak tail '
+               '13-15 decades below the main lobe are checked to their own magnitude',
+               'IEEE rounding is not modelled: responses compared within 1e-9 of sum|R_i|, fluxes within 1e-9 of '
                'sum|F_i R_i|, variances within 4e-9 relative',
                'filter frequencies strictly monotonic, SED frequencies strictly monotonic, all values finite '
                '(integrate() replacing NaN by 0 in place is outside the quantifier)',
@@ -101,7 +105,7 @@ def _strict(xs):
 
 
 def gen_filter(rng, mode, n=None, zero_edges=None, order=None, normalize=None, nu_unit=None, allow_zero=False,
-               notch=None, r_dtype=None, lowfreq=False):
+               notch=None, r_dtype=None, lowfreq=False, leak=None):
     n = n or rng.choice(SIZES_F)
     if notch is None:
         notch = n >= 8 and rng.random() < 0.2
@@ -173,6 +177,16 @@ def gen_filter(rng, mode, n=None, zero_edges=None, order=None, normalize=None, n
                 rs[k if rng.random() < 0.5 else n - 1 - k] = 0.
         rs[1] = rs[1] or 0.4
         rs[n - 2] = rs[n - 2] or 0.6
+    if leak is None:
+        leak = n >= 8 and rng.random() < 0.12
+    if leak and n >= 6:
+        # a main lobe plus a leak tail 13-15 decades below the peak over several nodes at one end: the SED bins that lie
+        # inside the tail have R_i far below sum R_i
+        k = rng.randint(3, max(3, n // 2))
+        lvl = max(rs) * 10. ** rng.uniform(-15, -13)
+        tail = range(n - k, n) if rng.random() < 0.5 else range(0, k)
+        for j in tail:
+            rs[j] = float('%.3g' % (lvl * rng.uniform(0.5, 2.)))
     if not any(r > 0 for r in rs):
         rs[len(rs) // 2] = 0.5
     if mode == 'file' and n >= 4 and rs == rs[::-1]:
@@ -186,7 +200,7 @@ def gen_filter(rng, mode, n=None, zero_edges=None, order=None, normalize=None, n
     if normalize is None:
         normalize = rng.random() < 0.5
     central = float('%.4g' % (C_UM_HZ / xs[len(xs) // 2] if mode == 'nu' else xs[len(xs) // 2]))
-    flt = dict(mode=mode, x=xs, r=rs, normalize=bool(normalize), central=central)
+    flt = dict(mode=mode, x=xs, r=rs, normalize=bool(normalize), central=central, leak=bool(leak and n >= 6))
     if mode == 'nu':
         # numeric type of the response samples handed to Filter(...): the model gets the exact stored values
         flt['r_dtype'] = r_dtype or rng.choice(['f8', 'f8', 'f8', 'f4', 'i8', 'i4'])
@@ -473,7 +487,7 @@ DIRECTED_DTYPE = [
     ('f8', True, True, 'cover_tight', 'cube'),
 ]
 # packages stored in flux-density units whose FITS strings differ from another unit only by case, and in other prefixes
-DIRECTED_UNITS = [('mJy', 'many'), ('Jy', 'many'), ('MJy', True), ('MJy', 'cube'), ('kJy', True), ('uJy', 'cube'), ('nJy', True), ('W/m2/Hz', 'cube'),
+DIRECTED_UNITS = [('leak', False), ('leak', False), ('leak', True), ('leak', 'cube'), ('mJy', 'many'), ('Jy', 'many'), ('MJy', True), ('MJy', 'cube'), ('kJy', True), ('uJy', 'cube'), ('nJy', True), ('W/m2/Hz', 'cube'),
                   ('MJy', 'hetero'), ('W/m2/Hz', True)]
 HIST_OPS = ['normalize', 'assign_response', 'assign_response', 'assign_both', 'grid']
 HIST_DIRECTED = [['normalize'], ['assign_response', 'normalize'], ['assign_both'], ['grid', 'assign_response'], [],
@@ -501,7 +515,7 @@ def gen_step(rng, op, flt, nodes):
     return dict(op=op)
 
 
-def gen_case(rng, directed=None, small=False, hist=None, notch=None, r_dtype=None, lowfreq=None, pkg_unit=None):
+def gen_case(rng, directed=None, small=False, hist=None, notch=None, r_dtype=None, lowfreq=None, pkg_unit=None, leak=None):
     if directed:
         mode, forder, zero, norm, gkind, gorder, with_pkg = directed
         n = rng.choice([2, 3, 5, 9]) if small else None
@@ -517,6 +531,7 @@ def gen_case(rng, directed=None, small=False, hist=None, notch=None, r_dtype=Non
     flt = gen_filter(rng, mode, n=n, zero_edges=zero, order=forder, normalize=norm,
                      nu_unit='Hz' if exact else None, allow_zero=not directed,
                      notch=notch if notch is not None else (False if directed else None),
+                     leak=leak if leak is not None else (False if directed else None),
                      r_dtype=r_dtype if r_dtype else ('f8' if directed else None),
                      lowfreq=lowfreq if lowfreq is not None else (not exact and mode == 'nu' and rng.random() < 0.25))
     nodes = filter_nu_approx(flt)
@@ -562,7 +577,8 @@ def gen_cases(seed, tier):
             k = i - 2 * len(DIRECTED) - len(DIRECTED_NOTCH) - len(DIRECTED_DTYPE)
             un, pkgf = DIRECTED_UNITS[k]
             yield gen_case(rng, (['nu', 'wav', 'file'][k % 3], ['inc', 'dec'][k % 2], False, bool(k % 2), 'cover_fine',
-                                 'inc', pkgf), hist=[], pkg_unit=None if pkgf == 'many' else un)
+                                 'inc', pkgf), hist=[], pkg_unit=None if pkgf == 'many' or un == 'leak' else un,
+                           leak=True if un == 'leak' else None, r_dtype='f8' if un == 'leak' else None)
         else:
             yield gen_case(rng)
 
@@ -692,7 +708,13 @@ def property_on_rebin(flt, nus_held, grid, resp):
     scale = sum(abs(w) for w in want)
     got = [Fraction(float(r)) for r in resp]
     tol9 = Fraction(1, 10 ** 6) if flt.get('r_dtype') == 'f4' else Fraction(1, 10 ** 9)
+    budget = bin_budgets(dict(flt, nus=nus_held), grid) if flt.get('r_dtype') != 'f4' and len(got) == len(want) else None
     for i, (a, b) in enumerate(zip(got, want)):
+        if budget is not None and abs(float(a) - float(b)) > 1e-9 * abs(float(b)) + budget[i]:
+            return ('bin %d: Filter.rebin gives R_i = %r, exact integral of the response over the bin is %r: off by %.3g of the '
+                    'bin\'s own value (rounding budget of this bin %.3g; sum|R| = %r)'
+                    % (i, float(a), float(b), abs(float(a) - float(b)) / abs(float(b)) if b else float('inf'), budget[i],
+                       float(scale)))
         if abs(a - b) > tol9 * scale:
             return ('bin %d: Filter.rebin gives R_i = %r, exact integral of the response over the bin is %r '
                     '(sum|R| = %r)' % (i, float(a), float(b), float(scale)))
@@ -745,6 +767,8 @@ def grid_branches(nus_held, grid, flt):
         b.add('filter_construct_' + flt.get('construct', 'kw'))
     if flt.get('dup'):
         b.add('filter_via_' + flt['dup'])
+    if flt.get('leak'):
+        b.add('leak_tail_filter')
     if not any(r > 0 for r in flt['r']):
         b.add('all_zero_filter')
     elif interior_zero(flt['r']):
@@ -756,6 +780,24 @@ def interior_zero(rs):
     """a zero response between two non-zero ones"""
     nz = [i for i, r in enumerate(rs) if r != 0]
     return bool(nz) and any(rs[i] == 0 for i in range(nz[0], nz[-1]))
+
+
+def bin_budgets(cur, grid):
+    """per bin: 1e-13 x (clipped width) x ymax + 1e-15 x nu x ymax, ymax = largest response among the nodes inside the
+    clipped bin and the two nodes bracketing it (the rounding a direct evaluation of the bin integral can incur)"""
+    nodes = [(float(x), float(y)) for x, y in exact_nodes(cur, cur['nus'])]
+    xs = [n[0] for n in nodes]
+    lo, hi = xs[0], xs[-1]
+    g = [float(v) for v in grid]
+    edges = [g[0]] + [0.5 * (g[i] + g[i + 1]) for i in range(len(g) - 1)] + [g[-1]]
+    out = []
+    for i in range(len(g)):
+        c1, c2 = sorted((min(max(edges[i], lo), hi), min(max(edges[i + 1], lo), hi)))
+        k1 = max(bisect.bisect_right(xs, c1) - 1, 0)
+        k2 = min(bisect.bisect_left(xs, c2), len(xs) - 1)
+        ymax = max(abs(y) for _, y in nodes[k1:k2 + 1])
+        out.append(1e-13 * (c2 - c1) * ymax + 1e-15 * max(abs(c1), abs(c2)) * ymax)
+    return out
 
 
 def check_rebin(f, cur, grid_in, gunit, drv, label, info=None):
@@ -777,7 +819,20 @@ def check_rebin(f, cur, grid_in, gunit, drv, label, info=None):
     bad = None
     if len(model) != len(resp):
         bad = 'length: impl %d model %d' % (len(resp), len(model))
-    else:
+    elif cur.get('r_dtype', 'f8') != 'f4':
+        # every R_i on its own scale: relative to the bin's own magnitude, plus the rounding of the interpolation and of the
+        # bin edges measured against the largest response the bin (and its bracketing nodes) sees — not against sum|R|
+        budget = bin_budgets(cur, grid)
+        for i, (a, m) in enumerate(zip(resp, model)):
+            if not abs(float(a) - float(m)) <= 1e-9 * abs(float(m)) + budget[i]:
+                bad = ('bin %d (nu=%r): Filter.rebin R_i = %r, model (exact integral over the clipped bin) = %r: off by %.3g of '
+                       'the bin\'s own value (rounding budget of this bin %.3g, sum|R| = %r)'
+                       % (i, grid[i], float(a), float(m), abs(float(a) - float(m)) / abs(float(m)) if float(m) else float('inf'),
+                          budget[i], scale))
+                break
+            if float(m) != 0 and abs(float(m)) < 1e-9 * scale:
+                info is not None and info.add('bin_far_below_sum')
+    if bad is None and len(model) == len(resp):
         for i, (a, m) in enumerate(zip(resp, model)):
             if not (abs(float(a) - float(m)) <= TOL_R[cur.get('r_dtype', 'f8')] * scale) or not np.isfinite(a):
                 bad = ('bin %d (nu=%r): Filter.rebin R_i = %r, model (exact integral over the clipped bin) = %r, '
